@@ -18,7 +18,10 @@ func init() { streams["names"] = streamNames }
 
 func streamNames() {
 	configs := []string{"e.yaml", "E.YAML", "My.Cert.yml", "a.b.c.json", "x.YmL", "sub.dir/e1.yaml", "deep/er.dir/with.dots/n.JSON", "sp ace/na me.yaml",
-		"ünï/cödé.yaml", "dash-_+/x=y.yaml", "UPPER/CASE.Json", "one/two/three/four/five.yml", "trailing.dot./z.yaml", "yaml/yaml.yaml", "k.yaml.json"}
+		"ünï/cödé.yaml", "dash-_+/x=y.yaml", "UPPER/CASE.Json", "one/two/three/four/five.yml", "trailing.dot./z.yaml", "yaml/yaml.yaml", "k.yaml.json",
+		// letters whose lower-case form has another UTF-8 length (a name is cut at a byte offset): dotted I, capital sharp s, Kelvin and
+		// Angstrom signs, A and T with stroke
+		"ca/İzmir-Root.yaml", "GROẞE.YAML", "KK-Å.yml", "ȺȾ.json", "İİİ/Ⱥ.yaml"}
 	decoys := []string{"notes.txt", "data.yamlx", "x.yaml.bak", "cert.pem", "yamlfile", "sub.dir/readme.md", "json/noext", "e.yaml~", "E.YAML.orig"}
 	for round, explicit := range []bool{false, true} {
 		m := fstest.MapFS{".": &fstest.MapFile{Mode: 0777 | fs.ModeDir}}
